@@ -385,7 +385,9 @@ impl World {
                         let target = canonical(k, a);
                         let old = SystemTime::now() - c.expiry - Duration::from_secs(HOUR);
                         let d = old.duration_since(UNIX_EPOCH).expect("after epoch");
-                        if let Some(peers) = v["peers"].as_object_mut() {
+                        // (a file that is valid JSON but not a cache -- an array, say -- is left as it is)
+                        let is_cache = v.get("peers").map(|p| p.is_object()).unwrap_or(false);
+                        if let Some(peers) = v.get_mut("peers").and_then(|p| p.as_object_mut()) {
                             for (_, addrs) in peers.iter_mut() {
                                 for ad in addrs.as_array_mut().into_iter().flatten() {
                                     if ad["addr"].as_str() == Some(&target) {
@@ -394,7 +396,9 @@ impl World {
                                 }
                             }
                         }
-                        std::fs::write(&self.file, serde_json::to_string_pretty(&v).expect("json")).expect("write file");
+                        if is_cache {
+                            std::fs::write(&self.file, serde_json::to_string_pretty(&v).expect("json")).expect("write file");
+                        }
                     }
                 }
             }
@@ -769,7 +773,7 @@ fn replay_scenario(t: &mut Trace, base: &Path, run: u64, sc: &Value, mc_cfg: &Cf
 }
 
 fn main() {
-    quiet_panics();
+    if std::env::var("VERIF_LOUD").is_err() { quiet_panics(); }
     let mode = std::env::args().nth(1).unwrap_or_default();
     if mode == "writer" {
         writer_main();
